@@ -126,7 +126,7 @@ def s2(ck, an):
     if not upd:
         ck.fail("EFFECT", "S2.updates-own-book", subj, fa.f.loc, "process_EventNBBO never calls LimitOrderBook.update", construct="missing:update")
     for c in upd:
-        recv = fa.sym.canon(c.func.value) if isinstance(c.func, ast.Attribute) else "?"
+        recv = canon_where(fa, c.func.value, c) if isinstance(c.func, ast.Attribute) else "?"
         ck.check(recv == want_book, "EFFECT", "S2.updates-own-book", subj, fa.loc(c), f"update is applied to {want_book} only",
                  f"update is applied to {recv}, expected {want_book}", construct=stmt_text(c))
         arg = fa.sym.canon(c.args[0]) if c.args else "?"
@@ -188,7 +188,7 @@ def s3(ck, an):
     own_callers(ck, an, "S3.terminate-callers", "LimitOrderBook.terminate", {"Exchange.process_EventContractDiscontinued"})
     fa = an.fa("Exchange.process_EventNBBO")
     for c in fa.calls_to("LimitOrderBook.update"):
-        recv = fa.sym.canon(c.func.value)
+        recv = canon_where(fa, c.func.value, c)
         preds = fa.guard_predicates(c)
         good = any(p[0] == "truthy" and p[2] and p[1] == f"{_par(recv)}.is_alive" for p in preds)
         ck.check(good, "GUARD", "S3.alive-guard", fa.f.short, fa.loc(c), "update is guarded by is_alive of the same book",
